@@ -252,6 +252,52 @@ def pb_ok(toks, b, at, expr, depth=0):
     return False
 
 
+def parse_adjustment_match(toks, b, i, rhs, where):
+    """`match <x>.box_sizing() { BoxSizing::ContentBox => E, BoxSizing::BorderBox => Size::ZERO }` (arms in either order,
+    exactly these two patterns: the enum has two variants and rustc checks exhaustiveness) -- the same table as the `if` form."""
+    c = 1
+    while rhs[c][1] != '{':
+        c += 1
+    scrut = [t_[1] for t_ in rhs[1:c]]
+    if not (scrut[-3:] == ['box_sizing', '(', ')'] or scrut[-1:] == ['box_sizing']):
+        raise Refuse('%s: box_sizing_adjustment matches on something else than box_sizing: %s' % (where, ' '.join(scrut)))
+    end = match_brace(rhs, c)
+    rest = rhs[end + 1:]
+    proj = ''
+    if rest:
+        ch, nxt = chain_after(rest, 0)
+        if nxt != len(rest) or len(ch) != 1 or ch[0][1] is None:
+            raise Refuse('%s: unexpected tokens after the box_sizing_adjustment match: %s' % (where, txt(rest)))
+        proj = ch[0][0]
+    body = rhs[c + 1:end]
+    arms, cur, depth = [], [], 0
+    for t_ in body:
+        if t_[0] == 'op' and t_[1] in '([{':
+            depth += 1
+        elif t_[0] == 'op' and t_[1] in ')]}':
+            depth -= 1
+        if t_[1] == ',' and depth == 0:
+            if cur:
+                arms.append(cur)
+            cur = []
+        else:
+            cur.append(t_)
+    if cur:
+        arms.append(cur)
+    table = {}
+    for a in arms:
+        w = [t_[1] for t_ in a]
+        if len(w) < 5 or w[:2] != ['BoxSizing', '::'] or w[3] != '=>':
+            raise Refuse('%s: arm of the box_sizing_adjustment match: %s' % (where, ' '.join(w)))
+        if w[2] in table:
+            raise Refuse('%s: duplicate arm %s' % (where, w[2]))
+        table[w[2]] = a[4:]
+    if set(table) != {'ContentBox', 'BorderBox'}:
+        raise Refuse('%s: arms of the box_sizing_adjustment match: %s' % (where, sorted(table)))
+    cond_ok = [t_[1] for t_ in table['BorderBox']] == ['Size', '::', 'ZERO']
+    return cond_ok, pb_ok(toks, b, i, table['ContentBox']), proj
+
+
 def parse_adjustment(toks, b, i, where):
     """toks[i:] = `let box_sizing_adjustment = ... ;`  ->  (cond_ok, pb_ok, proj)"""
     j = i + 3
@@ -264,6 +310,8 @@ def parse_adjustment(toks, b, i, where):
             depth -= 1
         k += 1
     rhs = toks[j:k]
+    if rhs[0][1] == 'match':
+        return parse_adjustment_match(toks, b, i, rhs, where)
     if rhs[0][1] != 'if':
         raise Refuse('%s: box_sizing_adjustment is not an `if` expression' % where)
     # condition up to the first '{' at depth 0
